@@ -15,6 +15,7 @@ mod c10;
 mod c11;
 mod c12;
 mod c13;
+mod c16;
 mod c17;
 mod c19;
 mod c20;
@@ -43,7 +44,7 @@ pub struct Check {
 }
 
 fn registry() -> Vec<Check> {
-	vec![c01::CHECK, c02::CHECK, c03::CHECK, c04::CHECK, c05::CHECK, c06::CHECK, c07::CHECK, c08::CHECK, c09::CHECK, c10::CHECK, c11::CHECK, c12::CHECK, c13::CHECK, c17::CHECK, c19::CHECK, c20::CHECK]
+	vec![c01::CHECK, c02::CHECK, c03::CHECK, c04::CHECK, c05::CHECK, c06::CHECK, c07::CHECK, c08::CHECK, c09::CHECK, c10::CHECK, c11::CHECK, c12::CHECK, c13::CHECK, c16::CHECK, c17::CHECK, c19::CHECK, c20::CHECK]
 }
 
 fn usage() -> ! {
@@ -61,6 +62,21 @@ fn main() {
 	if args[0] == "list" {
 		for c in &reg {
 			println!("{}", c.id);
+		}
+		return;
+	}
+	if args[0] == "salt" {
+		// debugging aid: one program under several hash salts
+		let code = args.get(1).cloned().unwrap_or_default();
+		for salt in 0..8usize {
+			let c = code.clone();
+			let out = std::thread::spawn(move || {
+				jrsonnet_interner::verif::set_hash_salt(salt);
+				format!("{:?}", imp::Imp::new().run(&c))
+			})
+			.join()
+			.unwrap();
+			println!("salt {salt}: {out}");
 		}
 		return;
 	}
